@@ -453,6 +453,35 @@ func extractTransportShapes() {
 	emit("def transportShapes : List (String × List String) := [\n  %s\n]\n", strings.Join(rows, ",\n  "))
 }
 
+// the code behind the hand-written machines added last (Model/Inproc.lean, Model/Proto/RawRecv.lean): whole statement
+// lists of the inproc rendezvous and of the raw receive paths, so that any edit to them re-opens the obligation and the
+// correspondence has to show that the machine still describes them
+func extractMachineShapes() {
+	table := func(name, doc string, fns []struct{ pkg, recv, name string }) {
+		rows := []string{}
+		for _, fn := range fns {
+			p := loadPkg(fn.pkg)
+			fd := p.fn(fn.recv, fn.name)
+			if fd == nil || fd.Body == nil {
+				unrec(fn.pkg+":"+fn.recv+"."+fn.name, "function not found")
+				continue
+			}
+			rows = append(rows, fmt.Sprintf("(%s, %s)", leanStr(fn.pkg+":"+fn.recv+"."+fn.name), leanStrList(shapeLines(fd.Body))))
+		}
+		emit("\n/-- %s -/\n", doc)
+		emit("def %s : List (String × List String) := [\n  %s\n]\n", name, strings.Join(rows, ",\n  "))
+	}
+	table("inprocShapes", "the inproc rendezvous as read: statement lists of Listen / Accept / Dial and the two Close", []struct{ pkg, recv, name string }{
+		{"transport/inproc", "listener", "Listen"}, {"transport/inproc", "listener", "Accept"}, {"transport/inproc", "listener", "Close"},
+		{"transport/inproc", "dialer", "Dial"}, {"transport/inproc", "dialer", "Close"}, {"transport/inproc", "inproc", "Close"},
+	})
+	table("rawRecvShapes", "the raw receive paths as read: receiver goroutine and RecvMsg of XREQ, XSURVEYOR and XSUB", []struct{ pkg, recv, name string }{
+		{"protocol/xreq", "pipe", "receiver"}, {"protocol/xreq", "socket", "RecvMsg"},
+		{"protocol/xsurveyor", "pipe", "receiver"}, {"protocol/xsurveyor", "socket", "RecvMsg"},
+		{"protocol/xsub", "pipe", "receiver"}, {"protocol/xsub", "socket", "RecvMsg"},
+	})
+}
+
 // macat: the loops that move bytes between the socket and the terminal, and how --file reads its payload
 func extractMacatShapes() {
 	rows := []string{}
